@@ -106,7 +106,7 @@ class TapeDist(ciw.dists.Distribution):
         v = self._value(t, ind)
         log = self.log
         log.seq += 1
-        self.calls.append((self.i, t, getattr(ind, "id_number", None), v, log.seq, log.step))
+        self.calls.append((self.i, t, getattr(ind, "id_number", None), v, log.seq, log.step, getattr(ind, "customer_class", None)))
         self.i += 1
         return v
 
